@@ -85,6 +85,22 @@ Theorem C20_second_start_clean :
 Proof. exact second_start_clean. Qed.
 Print Assumptions C20_second_start_clean.
 
+(* a start rebuilds only what is damaged - at every point of every history, since s and seq are
+   arbitrary: a compile in the trace belongs to a call of the sequence whose entry was NOT valid
+   when the start began, and every file written is one of the files of such a call (with
+   C20_import_repairs: every other file is untouched) *)
+Theorem C20_rebuilds_only_damaged :
+  forall (value content : Type) (enc : value -> content) (dec : content -> option value)
+         (conv_of scorer_of dvt_of : string -> value),
+    (forall v, dec (enc v) = Some v) ->
+    forall (D : dirs) (seq : list step) (s s' : cstate content) (ev : list event) (vs : list (sval value)),
+      sane dec conv_of dvt_of s -> wf_seq D seq = true ->
+      import_run enc dec conv_of scorer_of dvt_of D seq s = Ok (s', ev, vs) ->
+      (forall st, In st (rebuilds ev) -> In st seq /\ ~ step_valid dec conv_of dvt_of s st) /\
+      (forall f, In f (dumps_of ev) -> exists st, In st (rebuilds ev) /\ In f (step_files st)).
+Proof. exact import_rebuilds_only_damaged. Qed.
+Print Assumptions C20_rebuilds_only_damaged.
+
 (* ---- byte level: where the decoder hypothesis enters ------------------------------------ *)
 
 (* every state in which each governed file is a prefix (possibly all, possibly nothing) of
@@ -143,6 +159,35 @@ Theorem C20_alias_calls_guarded : wf_seq model_dirs alias_seq = true.
 Proof. exact alias_wf. Qed.
 Print Assumptions C20_alias_calls_guarded.
 
+(* ---- sessions: `import lingpy` followed by any number of rc(schema=v), v ANY string.  The if/elif
+        chain of settings.rc is regenerated into LVGen.SettingsModels.schema_seqs; Cache.schema_seq
+        selects the branch as the code does (first list of spellings containing v; none: no call). *)
+Theorem C20_sessions_guarded :
+  forall vs : list string, wf_seq model_dirs (session_seq schema_seqs import_seq vs) = true.
+Proof. exact shipped_session_wf. Qed.
+Print Assumptions C20_sessions_guarded.
+
+(* every session, on every sane cache state: it returns, every model / inventory it puts into
+   rcParams is the one built from the data files, every entry it consulted is valid afterwards,
+   and repeating the whole session compiles and writes nothing *)
+Theorem C20_shipped_sessions :
+  forall (value content : Type) (enc : value -> content) (dec : content -> option value)
+         (conv_of scorer_of dvt_of : string -> value),
+    (forall v, dec (enc v) = Some v) ->
+    forall (vs : list string) (s : cstate content),
+      sane dec conv_of dvt_of s ->
+      exists s' ev,
+        import_run enc dec conv_of scorer_of dvt_of model_dirs (session_seq schema_seqs import_seq vs) s
+        = Ok (s', ev, map (ref_val conv_of scorer_of dvt_of model_dirs) (session_seq schema_seqs import_seq vs))
+        /\ clean dec conv_of dvt_of (session_seq schema_seqs import_seq vs) s'
+        /\ sane dec conv_of dvt_of s'
+        /\ exists ev2,
+             import_run enc dec conv_of scorer_of dvt_of model_dirs (session_seq schema_seqs import_seq vs) s'
+             = Ok (s', ev2, map (ref_val conv_of scorer_of dvt_of model_dirs) (session_seq schema_seqs import_seq vs))
+             /\ existsb is_compile ev2 = false.
+Proof. exact shipped_session_ok. Qed.
+Print Assumptions C20_shipped_sessions.
+
 (* hence, for the shipped start-up, from the absent directory and through any damage/restart
    rounds, with no premise left but the two about the decoder *)
 Theorem C20_shipped_restarts :
@@ -183,6 +228,13 @@ Theorem C20_checker_values :
 Proof. exact vals_refb_spec. Qed.
 Print Assumptions C20_checker_values.
 
+Theorem C20_checker_rebuild_only :
+  forall (dir : bool) (fl : list (string * xcontent)) (o : start_obs),
+    rebuild_onlyb dir fl o = true <->
+    forall st, In st (rebuilds (so_events o)) -> ~ step_valid xdec xconv xdvt (state_of dir fl) st.
+Proof. exact rebuild_onlyb_spec. Qed.
+Print Assumptions C20_checker_rebuild_only.
+
 Theorem C20_checker_quiet :
   forall (names : list string) (dir : bool) (fl : list (string * xcontent)) (o : start_obs),
     quietb names dir fl o = true <->
@@ -207,6 +259,14 @@ Print Assumptions C20_checker_decoder.
 Example decoder_premises_satisfiable :
   (forall v, udec (uenc v) = Some v) /\ decoder_rejects_strict_prefixes uenc udec.
 Proof. exact unary_codec_ok. Qed.
+
+(* the schema switch as regenerated: 'asjp' and 'ipa' select a non-empty branch, 'el' and 'evolaemp'
+   the same one, an unknown spelling none *)
+Example schema_switch_instances :
+  schema_seq schema_seqs "asjp" <> [] /\ schema_seq schema_seqs "ipa" <> []
+  /\ schema_seq schema_seqs "el" = schema_seq schema_seqs "evolaemp"
+  /\ schema_seq schema_seqs "no such schema" = [].
+Proof. exact schema_switch_examples. Qed.
 
 (* a concrete instance of C20_shipped_restarts: start on the absent directory; then truncate
    sca.converter to 2 bytes, empty dvt, delete asjp.converter, truncate the never-read cv.scorer;
